@@ -23,13 +23,18 @@
    Mode "enum": all circuits of <= Depth operations over every shape.
    Mode "cases": circuits listed in the JSON file VERIF_CASES (sampled by the harness over
    the enumerated operations); TLC supplies every measurement branch and the expectation.
+   Mode "perm": the parameter-binding family PermCases: circuits with 3 and 4 symbols, one
+   rotation per symbol, the symbols FIRST OCCURRING in every permutation of their lexicographic
+   order (3 symbols) / in several non-involutive ones (4 symbols), each on its own qubits or
+   chained on one qubit; the caller's k-th angle argument (distinct values) must reach the
+   symbol of lexicographic rank k whatever the occurrence order.
    Signatures: `Stubs` lists for every shape candidate stub signatures / array call shapes with
    the verdict accept <=> it is exactly the circuit's shape (printed once per shape). *)
-EXTENDS QuantumDefs, Json, IOUtils
+EXTENDS QuantumDefs, Json, IOUtils, SequencesExt
 
 CONSTANTS Depth, Mode
 
-Letters == <<"a", "b", "c", "m", "p", "q", "x", "y", "z">>      \* lexicographic order of the names used
+Letters == <<"a", "b", "c", "m", "p", "q", "w", "x", "y", "z">>      \* lexicographic order of the names used
 Rank(s) == CHOOSE i \in 1..Len(Letters) : Letters[i] = s
 
 \* registers in CREATION order: <<name, size>>
@@ -88,7 +93,31 @@ ShapeOps(sh) == LET n == NUnits(sh.q) nb == NUnits(sh.c) IN
     \cup {COp("measure", qs, <<>>, bit, b) : qs \in Inj(n, 1), bit \in 0..(nb - 1), b \in {0, 1}}
     \cup {COp("reset", qs, <<>>, -1, b) : qs \in Inj(n, 1), b \in {0, 1}}
 
-Cases == JsonDeserialize(IOEnv.VERIF_CASES)
+\* ------------------------------------------------------------------ parameter-binding family
+\* occ = the symbols in order of first occurrence.  rank j |-> lexicographic rank of occ[j] is a
+\* permutation of 1..n; a wrapper that applies it the wrong way round (its inverse) is only
+\* wrong when the permutation is not an involution.
+OccRank(occ, j) == Cardinality({i \in 1..Len(occ) : Rank(occ[i]) < Rank(occ[j])}) + 1
+NonInvolutive(occ) == \E j \in 1..Len(occ) : OccRank(occ, OccRank(occ, j)) # j
+Perms3 == {p \in {<<r, s, t>> : r, s, t \in {"x", "y", "z"}} : Distinct(p)}          \* all 6
+Perms4 == {<<"z", "x", "w", "y">>, <<"x", "y", "z", "w">>, <<"y", "z", "w", "x">>, <<"x", "w", "z", "y">>,
+           <<"y", "w", "x", "z">>, <<"z", "y", "x", "w">>}
+PermLayouts == {"own", "chain"}
+PermShapes == {1, 2}                    \* b[2],a[1] (creation order # lexicographic order) and q[3]
+\* the k-th occurring symbol: rz (k odd) / rx (k even) on its own qubit (k-1) mod 3, or all on qubit 0
+PermOp(occ, k, layout) == COp(IF k % 2 = 1 THEN "rz" ELSE "rx", <<IF layout = "own" THEN (k - 1) % 3 ELSE 0>>,
+                              <<<<"sym", occ[k]>>>>, -1, -1)
+PermCaseSet == {[shape |-> sh, occ |-> p, layout |-> l, ops |-> [k \in 1..Len(p) |-> PermOp(p, k, l)]] :
+                   sh \in PermShapes, p \in Perms3 \cup Perms4, l \in PermLayouts}
+PermCases == SetToSeq(PermCaseSet)
+\* vacuity guard: all 6 orders of 3 symbols, and non-involutive orders for both 3 and 4 symbols
+ASSUME PermFamilyIsDiscriminating ==
+    /\ Cardinality(Perms3) = 6
+    /\ \E p \in Perms3 : NonInvolutive(p)
+    /\ Cardinality({p \in Perms4 : NonInvolutive(p)}) >= 3
+    /\ \E p \in Perms3 \cup Perms4 : ~NonInvolutive(p)                    \* controls that must also pass
+
+Cases == IF Mode = "perm" THEN PermCases ELSE JsonDeserialize(IOEnv.VERIF_CASES)
 \* the candidates for position k of case c: measurement/reset outcomes branch
 CaseOps(c, k) == LET op == Cases[c].ops[k] IN
                  IF op.g \in {"measure", "reset"} THEN {[op EXCEPT !.b = 0], [op EXCEPT !.b = 1]} ELSE {op}
@@ -130,7 +159,7 @@ Step(op) == /\ st # NotStarted
 
 Next == \/ Prepare
         \/ Mode = "enum" /\ Len(ops) < Depth /\ \E op \in ShapeOps(Sh) : Step(op)
-        \/ Mode = "cases" /\ Len(ops) < Len(Cases[cid].ops) /\ \E op \in CaseOps(cid, Len(ops) + 1) : Step(op)
+        \/ Mode \in {"cases", "perm"} /\ Len(ops) < Len(Cases[cid].ops) /\ \E op \in CaseOps(cid, Len(ops) + 1) : Step(op)
 Spec == Init /\ [][Next]_vars
 
 \* returned bools: classical bits in lexicographic order
@@ -163,6 +192,10 @@ StubReport(s, syms) == LET sh == Shapes[s] nq == NUnits(sh.q) nb == NUnits(sh.c)
      cands |-> {[c |-> c, accept |-> Fits(nq, np, nb, c)] : c \in StubCands(nq, np, nb)},
      calls |-> {[sizes |-> a, accept |-> a = ls] : a \in ArrayCands(ls)}]
 ASSUME PrintT(ToJson([prep |-> PrepProduct, shapes |-> Shapes]))
+ASSUME Mode = "perm" =>
+    PrintT(ToJson([family |-> [i \in 1..Len(PermCases) |->
+                      [cid |-> i, occ |-> PermCases[i].occ, layout |-> PermCases[i].layout,
+                       noninvolutive |-> NonInvolutive(PermCases[i].occ)]]]))
 ASSUME Mode = "enum" =>
     \A s \in 1..Len(Shapes) : \A syms \in {{}, {"y"}, {"x", "y"}} : PrintT(ToJson(StubReport(s, syms)))
 =============================================================================
